@@ -83,7 +83,7 @@ def to_steel(form):
 
 def gen_history(rng, npieces, stream, obs_every=7):
     """Returns list of pieces (each a list of abstract forms).  `stream`: 'main' avoids the classes of
-    the open findings; 'k06a' / 'k06b' deliberately produce them.  Every `obs_every`-th step is followed by a piece
+    the open findings; 'k06a' / 'k06b' / 'k06c' deliberately produce them.  Every `obs_every`-th step is followed by a piece
     that calls every function and reads every variable defined so far (1 = after every step)."""
     kind = {}          # name -> 'var' | 'fn' | 'setter'
     counter = [100]
@@ -98,6 +98,9 @@ def gen_history(rng, npieces, stream, obs_every=7):
 
     for i in range(npieces):
         r = rng.random()
+        if stream == "k06c" and defined("var"):
+            # many redefinitions (the recycler runs early) and many builds that fail after redefining
+            r = rng.choice([0.72, 0.72, 0.95, 0.95, 0.95, r, r])
         piece = []
         if r < 0.30 or not defined("var"):
             v = rng.choice(VARS)
@@ -236,31 +239,6 @@ def gen_chain_history(rng, depth, churn, obs_every=20, more_churn=()):
     return pieces
 
 
-def in_k06a_class(pieces, idx):
-    """A global defined in a unit together with a function reading it, assigned by a later unit."""
-    same_unit = set()
-    for p in pieces[: idx + 1]:
-        defs = {f.split()[1] for f in p if f.split()[0] == "defc"}
-        for f in p:
-            t = f.split()
-            if t[0] == "deff":
-                for r in t[2:]:
-                    if r.split(":")[0] in defs:
-                        same_unit.add(r.split(":")[0])
-    assigned = set()
-    setters = {}
-    for p in pieces[: idx + 1]:
-        for f in p:
-            t = f.split()
-            if t[0] == "set":
-                assigned.add(t[1])
-            if t[0] == "defs":
-                setters[t[1]] = t[2]
-            if t[0] == "calls" and t[1] in setters:
-                assigned.add(setters[t[1]])
-    return bool(same_unit & assigned)
-
-
 def in_k06b_class(pieces, idx):
     """A unit that fails at run time contained a definition (after the failing form) of a name that was
     already defined."""
@@ -297,10 +275,11 @@ def run_histories(ctx, histories, label, stats, known):
     def run_batch_safe(batch):
         """A batch that does not finish is re-run one history per process; a history that hangs on its own keeps the
         output it produced (the piece in flight shows as `hang`)."""
-        rc, out, err = C.run_bin([C.bin_path("c06"), "hist"], "\n".join(
-            "\n".join(" ".join(to_steel(f) for f in p) for p in h) + "\nreset" for h in batch) + "\n", timeout=240)
-        if rc not in (124, -9):
-            return rc, out, err
+        if len(batch) > 1:
+            rc, out, err = C.run_bin([C.bin_path("c06"), "hist"], "\n".join(
+                "\n".join(" ".join(to_steel(f) for f in p) for p in h) + "\nreset" for h in batch) + "\n", timeout=240)
+            if rc not in (124, -9):
+                return rc, out, err
         def run_one(h):
             steel = "\n".join(" ".join(to_steel(f) for f in p) for p in h) + "\nreset\n"
             rc1, out1, err1 = C.run_bin([C.bin_path("c06"), "hist"], steel, timeout=60)
@@ -314,7 +293,10 @@ def run_histories(ctx, histories, label, stats, known):
         outs = C.pool_map(run_one, batch, workers=8)
         return 0, "".join(upto_last_reset(o) for o in outs), ""
 
-    batches = [histories[i:i + 24] for i in range(0, len(histories), 24)]
+    # the k06b stream is known to make the engine hang (finding K06b): one history per process there, so that a hang costs one
+    # short time-out instead of the batch's
+    per = 1 if label == "k06b" else 24
+    batches = [histories[i:i + per] for i in range(0, len(histories), per)]
     res = C.pool_map(run_batch_safe, batches) if len(batches) > 1 else [run_batch_safe(b) for b in batches]
     rrc = max([r[0] for r in res] + [0], key=abs)
     rout = "".join(upto_last_reset(r[1]) for r in res)
@@ -419,9 +401,9 @@ def run_histories(ctx, histories, label, stats, known):
                 continue
             # the real engine disagrees with the specification: is it an open finding?
             cls = None
-            if (in_k06a_class(h, pi) or "ga" in outside) and real_norm == mres:
-                # outside the guard of `propagate_refines_partial` (decided by the driver: `ga`; or by the syntactic class
-                # predicate); the model (constant propagation, then slots) predicts the value the engine shows
+            if "ga" in outside and real_norm == mres:
+                # outside the guard of `propagate_refines_partial` (decided by the driver: some piece so far assigned a cell
+                # whose definition was propagated); the model (constant propagation, then slots) predicts the engine's value
                 cls = "K06a"
             elif in_k06b_class(h, pi) and "gb" in outside and (real_norm == mres or mres != sres):
                 # as for K06c: the model deviates from S here too, but an unassigned slot reads differently in M
@@ -707,7 +689,7 @@ def run(ctx):
     longs = [gen_chain_history(rng, 3, 130, obs_every=5, more_churn=(420,))] if ctx.quick() else \
         [gen_chain_history(rng, d, 130, obs_every=5, more_churn=(420, 830, 130)) for d in (2, 5)]
     run_histories(ctx, longs, "long", stats, known)
-    for stream in ("k06a", "k06b"):
+    for stream in ("k06a", "k06b", "k06c"):
         run_histories(ctx, [gen_history(rng, ln, stream) for _ in range(max(4, nh // 6))], stream, stats, known)
     run_scm_corpus(ctx, stats, known)
     run_kont_family(ctx, rng, 12 if ctx.quick() else 120, stats, known)
@@ -716,8 +698,9 @@ def run(ctx):
         ctx.notes.append("shadowed count / threshold / epoch of the model differ from the engine's in %d evaluations inside the guards "
                          "(policy-level state, see distribution.difference_samples)" % d["trigger_state_differs_inside_guards"])
     if d["free_count_max_excess_of_engine"]:
-        ctx.notes.append("the engine reclaimed up to %d slots more than the model in some recycler run (the model's values mention "
-                         "slots the engine's values do not)" % d["free_count_max_excess_of_engine"])
+        ctx.notes.append("the engine reclaimed up to %d slots more than the model in some recycler run: the model's values mention "
+                         "slots the engine's values do not (expected where the compiler inlined a procedure into a caller of the "
+                         "same unit - not modelled; every function is still called after every step)" % d["free_count_max_excess_of_engine"])
     for kid in known:
         if kid not in stats["known_hits"]:
             ctx.notes.append("open finding %s was not reproduced by this run" % kid)
